@@ -89,7 +89,8 @@ def run_case(case):
         return WishboneCSRBridge(cb, data_width=wdw)
 
     decoy(rng, twin)
-    dut = WishboneCSRBridge(csr_bus, data_width=wdw)
+    # data_width defaults to the CSR data width
+    dut = WishboneCSRBridge(csr_bus, **({} if (wdw == cdw and rng.random() < 0.5) else {"data_width": wdw}))
     wb = dut.wb_bus
     waw = len(wb.adr)
     lane_mask = (1 << cdw) - 1
